@@ -32,7 +32,8 @@ C(i) == 2 * i                                \* rank of constant ci
 Checks ==
   {[k |-> "eq", a |-> i, b |-> 0] : i \in {0, 1}} \cup {[k |-> "ne", a |-> i, b |-> 0] : i \in {1}}
   \cup {[k |-> op, a |-> i, b |-> 0] : op \in {"gt", "ge", "lt", "le"}, i \in {1, 2}}
-  \cup {[k |-> "in_range", a |-> 0, b |-> 2], [k |-> "in_range_open", a |-> 1, b |-> 3]}
+  \cup {[k |-> "in_range", a |-> 0, b |-> 2], [k |-> "in_range_open", a |-> 1, b |-> 3],
+        [k |-> "in_range_lo", a |-> 0, b |-> 2], [k |-> "in_range_hi", a |-> 1, b |-> 3]}    \* open at the low / at the high end only
   \cup {[k |-> "isin", a |-> 0, b |-> 2], [k |-> "notin", a |-> 1, b |-> 2]}
 
 Sat(c, v) ==
@@ -44,6 +45,8 @@ Sat(c, v) ==
     [] c.k = "le" -> v <= C(c.a)
     [] c.k = "in_range" -> C(c.a) <= v /\ v <= C(c.b)
     [] c.k = "in_range_open" -> C(c.a) < v /\ v < C(c.b)
+    [] c.k = "in_range_lo" -> C(c.a) < v /\ v <= C(c.b)
+    [] c.k = "in_range_hi" -> C(c.a) <= v /\ v < C(c.b)
     [] c.k = "isin" -> v \in {C(c.a), C(c.b)}
     [] c.k = "notin" -> v \notin {C(c.a), C(c.b)}
 SatSet(c) == {v \in U : Sat(c, v)}
